@@ -2,8 +2,11 @@ package drive
 
 import (
 	"bytes"
+	"io"
+
 	"encoding/json"
 	"fmt"
+	"github.com/ulikunitz/xz"
 	"math/rand"
 	"time"
 
@@ -140,6 +143,12 @@ func applyEdit(s *ref.LStream, xs ref.XZStream, edit string, bi int) (ok bool) {
 		case "hpadPlus4":
 			b.HdrPad = append(b.HdrPad, 0, 0, 0, 0)
 			reindex(i)
+		case "hpadPlus4Nonzero":
+			b.HdrPad = append(b.HdrPad, 0, 0, 7, 0)
+			reindex(i)
+		case "hpadPlus8LastNonzero":
+			b.HdrPad = append(b.HdrPad, 0, 0, 0, 0, 0, 0, 0, 1)
+			reindex(i)
 		case "hcrcB":
 			b.HdrCrcBad = true
 		case "addCsize":
@@ -224,6 +233,38 @@ func applyEdit(s *ref.LStream, xs ref.XZStream, edit string, bi int) (ok bool) {
 		}
 	}
 	return true
+}
+
+// readXZPastErrors reads like readXZ but keeps calling Read after errors (up to 8 of them):
+// it returns nil only if the reader finally reports a clean end of stream.
+func readXZPastErrors(data []byte, dictCap int, bufSize int) (out []byte, err error, panicked any) {
+	var r io.Reader
+	if p := safely(func() { r, err = xz.ReaderConfig{DictCap: dictCap}.NewReader(bytes.NewReader(data)) }); p != nil || err != nil {
+		return nil, err, p
+	}
+	buf := make([]byte, bufSize)
+	nerr := 0
+	var last error
+	p := safely(func() {
+		for calls := 0; calls < 1<<22 && len(out) < 64<<20; calls++ {
+			n, e := r.Read(buf)
+			if n > 0 && n <= len(buf) {
+				out = append(out, buf[:n]...)
+			}
+			if e == io.EOF {
+				last = nil
+				return
+			}
+			if e != nil {
+				last = e
+				if nerr++; nerr >= 8 {
+					return
+				}
+			}
+		}
+		last = errStalled
+	})
+	return out, last, p
 }
 
 // C04: a damaged stream never decodes "successfully" to different content.
@@ -401,6 +442,12 @@ func C04(c *hx.Ctx) {
 		}
 		c.Count(1, 1)
 		out, err, p := readXZ(data, 4096, false, 4096)
+		if p == nil && err != nil && i%4 == 0 {
+			// a caller that reads on after the error must not be told "clean end" either
+			if o2, e2, p2 := readXZPastErrors(data, 4096, []int{1, 700, 65536}[i%3]); p2 != nil || (e2 == nil && !bytes.Equal(o2, b.Plain)) {
+				out, err, p = o2, e2, p2
+			}
+		}
 		if p != nil || (err == nil && !bytes.Equal(out, b.Plain)) {
 			c.Violation(map[string]string{"kind": "different-content-accepted", "mod": m.kind, "check": fmt.Sprint(b.Check)},
 				fmt.Sprintf("%s at offset %d (arg %d) of %s: clean end with different content (%d vs %d bytes) panic=%v", m.kind, m.off, m.arg, b.Name, len(out), len(b.Plain), p),
